@@ -4,6 +4,7 @@ import common
 from props import C01 as c01
 
 LEAN_MODULES = ['OpusProps.C09']
+EXTENSIONS = ['C09silkplc', 'C09celtbg']   # extension slices merged into this property's check (tools/EXT_BRIEF.md)
 GEN = ['PlcConsts']
 SOURCES = ['src/opus_decoder.c', 'src/opus.c', 'celt/celt_decoder.c', 'celt/entdec.c', 'silk/PLC.c', 'silk/PLC.h', 'silk/CNG.c',
            'silk/dec_API.c', 'silk/decode_frame.c', 'silk/define.h', 'silk/macros.h', 'silk/enc_API.c', 'src/opus_encoder.c']
